@@ -614,6 +614,7 @@ inductive Out where
   | ctorPanic (idx : Int) (cls : String)
   | ctorErr (idx : Nat)
   | bytes (c : Summary) (bs : List Nat) (d : DecOut)
+  | hist (items : List (Summary × List Nat × List Nat × DecOut))   -- summary, bytes then, bytes now, decode of now
 deriving Repr
 
 inductive Op where
@@ -623,9 +624,18 @@ inductive Op where
   | newData (width : Nat) (dims : List Int) (vals : List Int)
 deriving Repr
 
+/-- a step of a history on ONE reused packet: a constructor op, `Bytes()` of the packet, or `Bytes()` of a
+`MakePretendPacket` copy of it -/
+inductive HStep where
+  | op (o : Op)
+  | enc
+  | fill (seq : Nat) (nchan : Int)
+deriving Repr
+
 inductive Inp where
   | dec (bs : List Nat)
   | script (v src seq : Nat) (off : Int) (ops : List Op)
+  | hist (v src seq : Nat) (off : Int) (steps : List HStep)
 deriving Repr
 
 def panOfString : String → Option Pan
@@ -738,6 +748,43 @@ def op : P Op := do
     pure (.newData w dims vals)
   | _ => fail s!"bad op {t}"
 
+def hstep : P HStep := do
+  match (← peek) with
+  | some "B" => do let _ ← tok; pure .enc
+  | some "F" => do
+    let _ ← tok
+    let sq ← nat
+    let n ← int
+    pure (.fill sq n)
+  | _ => do let o ← op; pure (.op o)
+
+/-- `v … src … seq … off … sh … ts … data …` (after the `S`) -/
+def summaryBody : P Summary := do
+  kw "v"; let v ← nat
+  kw "src"; let src ← nat
+  kw "seq"; let seq ← nat
+  kw "off"; let off ← nat
+  kw "sh"
+  let sh ← do
+    match (← peek) with
+    | some "-1" => do let _ ← tok; pure none
+    | _ => do let l ← list int; pure (some l)
+  kw "ts"
+  let ts ← do
+    match (← peek) with
+    | some "-1" => do let _ ← tok; pure none
+    | _ => do let t ← nat; pure (some t)
+  kw "data"; let dt ← data
+  pure { v, src, seq, off, sh, ts, data := dt }
+
+def histItem : P (Summary × List Nat × List Nat × DecOut) := do
+  kw "S"
+  let c ← summaryBody
+  kw "T"; let thn ← bytes
+  kw "N"; let now ← bytes
+  let d ← decOut
+  pure (c, thn, now, d)
+
 structure Line where
   inp : Inp
   reads : List Int
@@ -755,6 +802,12 @@ def line : P Line := do
       kw "ops"
       let ops ← list op
       pure (Inp.script v src seq off ops)
+    | "H" => do
+      kw "N"
+      let v ← nat; let src ← nat; let seq ← nat; let off ← int
+      kw "steps"
+      let steps ← list hstep
+      pure (Inp.hist v src seq off steps)
     | _ => fail s!"bad case kind {t}"
   kw "R"; let reads ← list int
   kw "PS"; let pseq ← nat
@@ -770,25 +823,14 @@ def line : P Line := do
       pure (Out.ctorPanic i c)
     | "Z" => do let i ← nat; pure (Out.ctorErr i)
     | "S" => do
-      kw "v"; let v ← nat
-      kw "src"; let src ← nat
-      kw "seq"; let seq ← nat
-      kw "off"; let off ← nat
-      kw "sh"
-      let sh ← do
-        match (← peek) with
-        | some "-1" => do let _ ← tok; pure none
-        | _ => do let l ← list int; pure (some l)
-      kw "ts"
-      let ts ← do
-        match (← peek) with
-        | some "-1" => do let _ ← tok; pure none
-        | _ => do let t ← nat; pure (some t)
-      kw "data"; let dt ← data
+      let c ← summaryBody
       kw "B"
       let bs ← bytes
       let d ← decOut
-      pure (Out.bytes { v, src, seq, off, sh, ts, data := dt } bs d)
+      pure (Out.bytes c bs d)
+    | "HL" => do
+      let items ← list histItem
+      pure (Out.hist items)
     | _ => do
       -- a decode output: put the token back
       let d ← (fun ts => decOut (t :: ts))
@@ -867,6 +909,71 @@ def runOps (unit : Nat × Nat) : Packet → List Op → Nat → Except (Nat × N
       | .ok p' => runOps unit p' os (i + 1)
       | .error e => .error (i, e)
 
+/-- one constructor op on the model (the unit words are patched in at encode time) -/
+def stepOp (p : Packet) : Op → Except NDErr Packet
+  | .setTs t _ => .ok (setTimestamp p { t := t, num := 0, den := 0 })
+  | .resetTs => .ok (resetTimestamp p)
+  | .clear => .ok (clearData p)
+  | .newData w dims vals => newData p (buildData w vals) dims
+
+/-- a history on the model: the packets that get encoded, in order.  `encode` is a pure function of the packet, so
+the model's encoding of each of them is what the corresponding held slice must still contain at the end. -/
+def runHist : Packet → List HStep → Nat → Except (Nat × NDErr) (List Packet)
+  | _, [], _ => .ok []
+  | p, .op o :: r, i =>
+    match stepOp p o with
+    | .ok p' => runHist p' r (i + 1)
+    | .error e => .error (i, e)
+  | p, .enc :: r, i =>
+    match runHist p r (i + 1) with
+    | .ok l => .ok (p :: l)
+    | .error e => .error e
+  | p, .fill sq n :: r, i =>
+    match makePretend p sq n with
+    | .pan c => .error (i, .pan c)
+    | .ok q =>
+      match runHist p r (i + 1) with
+      | .ok l => .ok (q :: l)
+      | .error e => .error e
+
+/-- the float-derived unit words of the timestamp TLV, taken from the implementation's bytes -/
+def withUnit (p : Packet) (bs : List Nat) : Packet :=
+  { p with ts := p.ts.map fun t =>
+      { t with num := be16 (bs.getD 28 0) (bs.getD 29 0), den := be16 (bs.getD 30 0) (bs.getD 31 0) } }
+
+/-- oracle for the held encodings of a history (implementation output only): each slice, looked at after the last
+step, must still decode to the packet it was made from -/
+def judgeHist : List (Summary × List Nat × List Nat × DecOut) → Nat → Option String
+  | [], _ => none
+  | (c, thn, now, d) :: r, i =>
+    let wf := match c.sh with | some s => wfShape s | none => true
+    let bad : Option String := match d with
+      | .ok o => firstFail (rtClauses c now.length o)
+      | .err e _ => if wf then some ("undecodable-" ++ e) else none
+    match bad with
+    | some cl =>
+      if now != thn then
+        some s!"C15:encoding-not-stable held encoding #{i} was overwritten by a later Bytes() call: it no longer decodes to the packet it was made from ({cl})"
+      else some s!"C15:roundtrip-{cl} decode(encode(p)) does not reproduce '{cl}' (history, encoding #{i})"
+    | none =>
+      match judgeDec now [] 1 1 d with
+      | .error v => some v
+      | .ok _ => judgeHist r (i + 1)
+
+/-- model against implementation for the held encodings -/
+def diffHist : List Packet → List (Summary × List Nat × List Nat × DecOut) → Nat → Option String
+  | [], [], _ => none
+  | p :: ps, (c, thn, now, d) :: r, i =>
+    if summarize p != c then some s!"history: packet of encoding #{i} differs between model and implementation"
+    else match encode (withUnit p thn) with
+      | .pan e => some s!"history: model Bytes() panics {e.str} at encoding #{i}"
+      | .ok mbs =>
+        if mbs != thn then some s!"history: Bytes() #{i}: first difference at byte {(firstDiff mbs thn 0).getD 0}"
+        else if now != mbs then some s!"history: held encoding #{i} changed after it was returned (the model's encode is a pure function)"
+        else if modelDec now [] 1 1 != d then some ("history: " ++ describeDiff (modelDec now [] 1 1) d)
+        else diffHist ps r (i + 1)
+  | _, _, _ => some "history: number of encodings differs"
+
 def runLine (ts : List String) : Verdict :=
   match P.run Parse.line ts with
   | .error e => .bad e
@@ -931,6 +1038,26 @@ def runLine (ts : List String) : Verdict :=
                     (if p.ts.isSome then ["rt-ts"] else []) ++ [s!"rt-data{p.data.kind}"])
                 else .diff (describeDiff m d))
       | _ => .bad "output form does not fit a constructor script")
+    | .hist v src seq off steps, out =>
+      (match out with
+      | .ctorPanic j c' => .viol s!"C15:ctor-panic a public constructor panicked in a history (op {j} {c'})"
+      | .ctorErr j =>
+        (match runHist (newPacket v src seq off) steps 0 with
+        | .error (i, .tooLong) | .error (i, .tooManyDims) =>
+          if i == j then .ok ["newdata-err"] else .diff s!"history: NewData error at step {j}, model at step {i}"
+        | _ => .diff s!"history: implementation NewData error at step {j}; model differs")
+      | .hist items =>
+        (match judgeHist items 0 with
+        | some v => .viol v
+        | none =>
+          match runHist (newPacket v src seq off) steps 0 with
+          | .error (i, _) => .diff s!"history: model fails at step {i}; implementation does not"
+          | .ok ps =>
+            match diffHist ps items 0 with
+            | some dmsg => .diff dmsg
+            | none => .ok (["hist", "rt", s!"hist{items.length}"] ++
+                (if steps.any (fun st => match st with | .fill _ _ => true | _ => false) then ["hist-fill"] else [])))
+      | _ => .bad "output form does not fit a history")
     | _, _ => .bad "output form does not fit the input kind"
 
 end DastardV.C15
